@@ -105,6 +105,11 @@ class Spectrum:
     @wave.setter
     def wave(self, value):
         value = np.asarray(value)
+        if value.dtype.kind == 'f' and value.dtype.itemsize < 8:
+            # half and single precision grids are held in double precision, so
+            # that bounds, interval widths and unit factors are not rounded to
+            # the storage type of the grid
+            value = value.astype(np.float64)
 
         if np.any(value <= 0):
             raise ValueError('Wavelength values must be greater than zero')
@@ -124,6 +129,10 @@ class Spectrum:
     @value.setter
     def value(self, value):
         value = np.asarray(value)
+        if value.dtype.kind in 'fc' and value.dtype.itemsize < (16 if value.dtype.kind == 'c' else 8):
+            # (likewise: tolerances, ratios and unit factors are not formed in half
+            # or single precision)
+            value = value.astype(np.complex128 if value.dtype.kind == 'c' else np.float64)
         self._value = value
 
     @property
